@@ -34,7 +34,7 @@ class C18(Prop):
                     transformer=rng.choice(["z-score", "yeo-johnson", None]), clip=rng.choice([5.0, 2.0, 0.5, 3.0]),
                     spread=rng.choice([0.0, 0.0002, 0.01]), missing=rng.random() < 0.6, calendar_days=rng.random() < 0.4,
                     x_offset=rng.choice([0, 0, -5, 7]), start_month=rng.choice([1, 6, 11, 12]), delay=rng.choice([0, 1]),
-                    bounds=rng.random() < 0.3, edge=rng.choice([None, None, None, "end-holiday", "start-holiday"]))
+                    bounds=rng.random() < 0.3, edge=rng.choice([None, None, None, "end-holiday", "start-holiday"]), step_rate=rng.random() < 0.5)
 
     def run_impl(self, case):
         import numpy as np
@@ -61,7 +61,13 @@ class C18(Prop):
             r.tags.add("missing")
         Y = pd.DataFrame(100 * np.exp(np.cumsum(rng.normal(0, 0.01, size=(n, case["ny"])), axis=0)), index=idx,
                          columns=[f"P{i}" for i in range(case["ny"])])
-        rate = pd.Series(rng.uniform(0, 0.03, size=n), index=idx, name="rate")
+        rate_vals = rng.uniform(0, 0.03, size=n)
+        if case.get("step_rate"):
+            # a policy-rate path: constant for weeks, then a step (consecutive equal values)
+            levels = rng.uniform(0, 0.03, size=max(1, n // 15 + 1))
+            rate_vals = np.array([levels[i // 15] for i in range(n)])
+            r.tags.add("step-rate")
+        rate = pd.Series(rate_vals, index=idx, name="rate")
         kw = {}
         if case["bounds"]:
             kw = dict(start=idx[n // 6], end=idx[-n // 8])
